@@ -5,7 +5,9 @@ import sys, glob, os, re, json
 prefix, suffix = sys.argv[1], sys.argv[2]
 force = '--force' in sys.argv
 for log in sorted(glob.glob(f'/dev/shm/{prefix}-C*.log')):
-    pid = re.search(r'-(C\d+)\.log$', log).group(1)
+    mm = re.search(r'-(C\d+)\.log$', log)
+    if not mm: continue
+    pid = mm.group(1)
     mp = f'/verif/seeded/{pid}{suffix}/meta.json'
     if not os.path.exists(mp): continue
     m = json.load(open(mp))
